@@ -714,7 +714,7 @@ def r18_4(ctx):
                 and st["rv"]["k"] == "use" and C.op_const(st["rv"]["op"]) == "true"]
         rets = [bb for bb in C.live(run) if run.term(bb)["k"] == "return"]
         if is_err and sets:
-            reached = run.reachable_from_edges(is_err, cut=out_edges(run, sets))
+            reached = C.after_edges(run, is_err, cut=out_edges(run, sets))
             esc = [r for r in rets if r in reached and r not in sets]
             if esc:
                 ctx.violation(["error-flag-skipped"], "Txtpp::run can return after a failed run without setting progress.has_error: Drop would then wait "
@@ -735,7 +735,7 @@ def r18_4(ctx):
             he_true = C.guard_edges(d, lib, lambda c, v, leaf: c.kind == "bool" and leaf is not None and leaf.kind == "field" and has_field([leaf], "has_error") and v is True)
             rets = [bb for bb in C.live(d) if d.term(bb)["k"] == "return"]
             cutset = out_edges(d, [bb for bb, t in recs] + [bb for bb, t in calls_to(d, "std::thread::sleep")])
-            if he_true and any(r in d.reachable_from_edges(he_true, cut=cutset) for r in rets):
+            if he_true and any(r in C.after_edges(d, he_true, cut=cutset) for r in rets):
                 ctx.ok("Drop leaves its drain loop on the has_error edge", site=ctx.site(d, recs[0][0]))
             else:
                 ctx.violation(["drop-ignores-error-flag"], "Drop's drain loop cannot be left on the has_error edge: after a failed run it would spin "
